@@ -13,12 +13,14 @@ package main
 
 import (
 	"bufio"
+	"context"
 	"fmt"
 	"os"
 	"strconv"
 	"strings"
 
 	"wa-lang.org/wa/api"
+	"wa-lang.org/wa/internal/3rdparty/wazero"
 	"wa-lang.org/wa/internal/waroot/malloc"
 	"wa-lang.org/wa/internal/wat/watutil"
 	"wa-lang.org/wa/internal/wat/watutil/wat2c"
@@ -105,6 +107,17 @@ func run(args []string) error {
 		n := func(i int) int32 { v, _ := strconv.Atoi(args[i]); return int32(v) }
 		h := malloc.NewHeap(&malloc.Config{MemoryPages: n(2), MemoryPagesMax: n(3), StackPtr: n(4), HeapBase: n(5), HeapLFixedCap: n(6)})
 		return os.WriteFile(args[1], h.WasmBytes(), 0o644)
+	case "validate":
+		// wbuild validate in.wasm: the vendored WebAssembly engine must accept the binary (decode + validation)
+		bin, err := os.ReadFile(args[1])
+		if err != nil {
+			return err
+		}
+		ctx := context.Background()
+		rt := wazero.NewRuntimeWithConfig(ctx, wazero.NewRuntimeConfigInterpreter())
+		defer rt.Close(ctx)
+		_, err = rt.CompileModule(ctx, bin)
+		return err
 	case "watfmt":
 		src, err := os.ReadFile(args[1])
 		if err != nil {
